@@ -27,6 +27,17 @@ def product():
         if not cfor:
             out.append({"src": pre + "func f(x) { " + head + " { }; return x }; f(5)", "field": "result", "want": "i:5",
                         "why": "the loop variable of `%s` does not overwrite a parameter" % name})
+    # loops that bind no variable of their own still give their body a scope
+    for pre, head in (("z = 0; ", "for ; z < 2; z++"), ("z = 0; ", "for ; z < 2; z += 1"), ("z = 0; ", "for z < 2"), ("z = 0; ", "for z = 0; z < 2; z++"),
+                      ("z = 0; ", "for"), ("z = 0; ", "for ; ;")):
+        tail = "; z = z + 1" if head in ("for z < 2",) else ("; z = z + 1; if z > 1 { break }" if head in ("for", "for ; ;") else "")
+        out.append({"src": pre + head + " { fresh = 1" + tail + " }; r = \"gone\"; try { r = fresh } catch e { }; r", "field": "result", "want": "s:676f6e65",
+                    "why": "a name created in the body of `%s` is not visible after the loop" % head})
+        out.append({"src": pre + "y = 10; " + head + " { var y = 99" + tail + " }; y", "field": "result", "want": "i:10", "why": "var in the body of `%s` shadows" % head})
+        out.append({"src": pre + "y = 10; " + head + " { y = 99" + tail + " }; y", "field": "result", "want": "i:99",
+                    "why": "plain assignment in the body of `%s` reaches the enclosing binding" % head})
+        out.append({"src": "func f(n) { " + pre + head + " { var n = 0" + tail + " }; return n }; f(7)", "field": "result", "want": "i:7",
+                    "why": "var in the body of `%s` does not overwrite a parameter" % head})
     # every construct that opens scopes hands back the scope it started in - also when no branch is taken
     for c in CONSTRUCTS:
         name = c.replace("\n", " ")[:40]
@@ -44,7 +55,7 @@ def product():
 CONSTRUCTS = [
     "if false { }", "if true { }", "if false { } else { }", "if false { } else if false { }", "if false { } else if false { } else if false { }",
     "if false { } else if true { }", "if true { } else if true { }", "if false { } else if false { } else { }", "if 0 { } else if \"\" { } else if nil { }",
-    "for i in [] { }", "for i in [1] { }", "for i = 0; i < 1; i++ { }", "for false { }", "for i in [1, 2] { if i == 1 { continue }; break }",
+    "for ; false; { }", "for ; false; false { }", "for i in [] { }", "for i in [1] { }", "for i = 0; i < 1; i++ { }", "for false { }", "for i in [1, 2] { if i == 1 { continue }; break }",
     "switch 1 {\ncase 2: 3\n}", "switch 1 {\ncase 1: 3\n}", "switch 1 {\ndefault: 3\n}", "switch 1 {\ncase 2:\n}",
     "try { } catch e { }", "try { throw 1 } catch e { }", "try { } catch e { } finally { }", "try { throw 1 } catch e { } finally { }",
     "func() { }()", "func() { if false { } else if false { } }()",
